@@ -15,6 +15,7 @@
 -/
 import FastPasta.Model.Collector
 import FastPasta.Proofs.StateSrcTie
+import FastPasta.Proofs.LaneSrcTie
 namespace FastPasta
 namespace C20
 
@@ -171,6 +172,17 @@ theorem tdh_buffer_src (s : CdpSt) (w : Bytes) :
     (SrcState.TdhBuffer.replace (SrcTie.bufOf s.tdh s.prevTdh s.prevInternalTdh) (SrcTie.tdhOf w)).2 =
       SrcTie.bufOf (replaceTdh s w).tdh (replaceTdh s w).prevTdh (replaceTdh s w).prevInternalTdh :=
   SrcTie.tdh_replace_eq s w
+
+
+/-- tie by translation (`Spec/LaneSrcGen.lean`): the configured chip count and chip orders are enforced by the source's own
+    `check_chip_count` / `check_chip_id_order` exactly as `countBad` / `orderBad` say (the order check is evaluated when the count
+    check passed, as in `do_lane_alpide_checks`) — so `chip_count_iff` / `chip_order_iff` / `inner_builtin` above are statements about
+    the source text as it is now -/
+theorem chip_checks_src (cfg : AlpideCfg) (barrel : Barrel) (laneNumber : Nat) (d : LaneDec) :
+    (SrcLane.LaneAlpideFrameAnalyzer.check_chip_count (SrcTie.analyzerOf cfg barrel laneNumber d)).isErr = countBad cfg barrel d ∧
+    (countBad cfg barrel d = false →
+      (SrcLane.LaneAlpideFrameAnalyzer.check_chip_id_order (SrcTie.analyzerOf cfg barrel laneNumber d)).isErr = orderBad cfg barrel laneNumber d) :=
+  ⟨SrcTie.chip_count_eq cfg barrel laneNumber d, SrcTie.chip_order_eq cfg barrel laneNumber d⟩
 
 end C20
 end FastPasta
